@@ -133,9 +133,10 @@ def run(ctx: Ctx) -> None:
     rp = tree.func(SM, f"{MACHINE}.run_prepare")
     li, ri = rp.args.args[2].arg, rp.args.args[3].arg
     for attr, band in (("disp_min", "min"), ("disp_max", "max")):
-        ss = [s for s in walk_no_nested(rp) if isinstance(s, ast.Assign) and canon(s.targets[0]) == f"self.{attr}"]
-        okk = bool(ss) and all(f"{li}['disparity'].sel(band_disp='{band}')" in canon(s.value) and not any(f"band_disp='{o}'" in canon(s.value) for o in ("min", "max") if o != band) for s in ss)
-        ctx.ob("C09.RUN-PREPARE", SM, ss[0] if ss else rp, f"run_prepare: self.{attr} from band '{band}' of the left dataset ({len(ss)} site(s))", okk, expected=f"{li}['disparity'].sel(band_disp='{band}')", detail="the searched interval must be the requested one")
+        ss = [s for s in walk_no_nested(rp) if isinstance(s, ast.Assign) and any(canon(t) == f"self.{attr}" for tt in s.targets for t in (tt.elts if isinstance(tt, (ast.Tuple, ast.List)) else [tt]))]
+        ctx.floor(f"C09.RUN-PREPARE(self.{attr} stores)", len(ss), 2)
+        okk = bool(ss) and all(not isinstance(s.targets[0], (ast.Tuple, ast.List)) and f"{li}['disparity'].sel(band_disp='{band}')" in canon(s.value) and not any(f"band_disp='{o}'" in canon(s.value) for o in ("min", "max") if o != band) for s in ss)
+        ctx.ob("C09.RUN-PREPARE", SM, ss[0] if ss else rp, f"run_prepare: self.{attr} from band '{band}' of the left dataset ({len(ss)} site(s))", okk, expected=f"{li}['disparity'].sel(band_disp='{band}')", detail="the searched interval must be the requested one: each bound is read by its band label, never by position (a dataset may store its bands as ['max', 'min'])")
     rg = [s for s in walk_no_nested(rp) if isinstance(s, ast.If) and any(canon(x.targets[0]) == "self.right_disp_min" for x in s.body if isinstance(x, ast.Assign)) and "right_img" in src(s.test) or (isinstance(s, ast.If) and ri in src(s.test) and any(isinstance(x, ast.Assign) and canon(x.targets[0]) == "self.right_disp_min" for x in s.body))]
     okr = False
     if rg:
@@ -185,6 +186,7 @@ SPEC = PropSpec(
 )
 
 MUTANTS = [
+    {"id": "bounds-read-by-position", "file": SM, "old": '            self.disp_min = left_img["disparity"].sel(band_disp="min").data\n            self.disp_max = left_img["disparity"].sel(band_disp="max").data\n', "new": '            self.disp_min, self.disp_max = left_img["disparity"].data\n'},
     {"id": "dsp-without-subpix", "file": MC, "old": "            dsp = int((disp - dmin) * self._subpix)", "new": "            dsp = int(disp - dmin)"},
     {"id": "arange-without-plus-one", "file": MC, "old": "disparity_range = np.arange(disparity_min, disparity_max + 1)", "new": "disparity_range = np.arange(disparity_min, disparity_max)"},
     {"id": "minmax-swapped-reduction", "file": MC, "old": "return int(np.nanmin(disp_min)), int(np.nanmax(disp_max))", "new": "return int(np.nanmax(disp_min)), int(np.nanmax(disp_max))"},
